@@ -181,10 +181,8 @@ func (e *Environment) Apply(item map[string]*types.Item, aliases map[string]stri
 			continue
 		}
 
-		if alias, ok := aliases[k]; ok {
-			k = alias
-		}
-
+		// the names in the store are attribute names already: Set and Remove resolve the placeholders,
+		// an attribute may be literally named like a placeholder
 		vItem := v.ToDynamoDB()
 		item[k] = &vItem
 	}
